@@ -4,7 +4,8 @@ ENTRY = {'parts': [{'scenario': 'scenarios.s_proc', 'chunk': 20}],
          'quick': {'runs': 4000, 'budget': 40}, 'thorough': {'runs': 300000, 'budget': 900}}
 
 TEXT = {'level': 'Seeded search over child exit paths x parent polling instants: the real BaseProcess.start/join/'
-                 'is_alive/exitcode/terminate and Popen.poll/wait (fork/spawn flavour) resp. popen_forkserver.Popen.poll '
+                 'is_alive/exitcode/terminate and Popen.poll/wait (fork flavour), the real popen_spawn_posix.Popen._launch on '
+                 'simulated descriptors (spawn flavour) resp. popen_forkserver.Popen.poll '
                  '(forkserver flavour, status pipe, 255 on EOF) run against children that execute the real '
                  'BaseProcess._bootstrap around a scripted target (return, raise, sys.exit(n), every fatal signal, '
                  'os._exit) on the simulated process table; 1-2 parent threads poll at scheduler-chosen instants around '
@@ -15,4 +16,5 @@ TEXT = {'level': 'Seeded search over child exit paths x parent polling instants:
         'ref': 'DESIGN.md 5 (C19), 4 (S-PROC)',
         'note': 'Trusted: wait-status encoding and signal semantics of the simulated kernel (cross-checked against real '
                 'forked children by selftest/conformance.py); the forkserver process itself is replaced by its protocol '
-                '(pid, then exit code, on the status pipe). Sampling, not proof.'}
+                '(pid, then exit code, on the status pipe); the fresh interpreter of the spawn method is a simulated '
+                'process that inherits exactly the descriptors _launch passes and unpickles what _launch writes. Sampling, not proof.'}
